@@ -292,25 +292,25 @@ def getRecords (s : State) (env : Env) (name : Name) (typ : Int) : Option (List 
   match tokenIDFromName s env name with
   | none => none
   | some token =>
-    match fragNameState s env.now token frags with     -- the fragments of `name`, not of the token
+    match fragNameState s env.now token (split dot token) with     -- `getFragmentedNameState(ctx, tokenID, nil)`
     | none => none
     | some _ =>
       match byteOf typ with
       | none => none
       | some tb => some (((recsByType s token name tb).filter (fun r => r.typ == typ)).map (·.data))
 
-/-- `getAllRecords(ctx, name, fragments)`; `frags = none` is the `nil` argument of `resolve` -/
-def allRecords (s : State) (env : Env) (name : Name) (frags : Option (List Bytes)) : Option (List Rec) :=
+/-- `getAllRecords(ctx, name)`: the records kept for `name` under its enclosing registered name, whose own
+parent chain must be unexpired (`getFragmentedNameState(ctx, tokenID, nil)`) -/
+def allRecords (s : State) (env : Env) (name : Name) : Option (List Rec) :=
   match tokenIDFromName s env name with
   | none => none
   | some token =>
-    match fragNameState s env.now token (frags.getD (split dot token)) with
+    match fragNameState s env.now token (split dot token) with
     | none => none
     | some _ => some (recsOfName s token name)
 
 def getAllRecords (s : State) (env : Env) (name : Name) : Option (List Rec) :=
-  let frags := split dot name
-  if frags.length = 1 then none else allRecords s env name (some frags)
+  if (split dot name).length = 1 then none else allRecords s env name
 
 def cnameByte : Nat := 5
 def cnameType : Int := Generated.nns_recordtype_CNAME
@@ -321,7 +321,7 @@ def resolveAux (s : State) (env : Env) : Nat → List Bytes → Name → Int →
   | fuel + 1, res, name, typ =>
     if name.length = 0 then none else
     let name := if name.getLast? = some dot then name.dropLast else name
-    match allRecords s env name none with
+    match allRecords s env name with
     | none => none
     | some rs =>
       let res' := res ++ (rs.filter (fun r => r.typ == typ)).map (·.data)
